@@ -358,6 +358,11 @@ def gen_plan(prop, seed, tier):
                   "s": M.enc(Fraction(2) ** rng.randint(-2, 2))}
             if cls == "frac" and rng.random() < 0.6:
                 op["s"] = M.enc(Fraction(rng.randint(1, 12), rng.randint(1, 12)))
+            if prop == "C18" and rng.random() < 0.2:
+                # strong down-scaling: distinct knots come closer than the library's 1e-6 / 1e-9 merge tolerances; the affine
+                # maps must still keep every knot and every multiplicity (judged on the element list alone)
+                op["s"] = M.enc(Fraction(1, rng.choice([1024, 4096, 65536, 1048576])))
+                op["via"] = rng.choice(["method", "imul"])
             if faulty:
                 r = rng.random()
                 if r < 0.4:
@@ -665,11 +670,14 @@ class KVEngine:
                 if kv is None:
                     continue
                 if self.too_close(kv):
-                    # the library deliberately identifies knots closer than 1e-6 (knots, |) / 1e-9 (mult); vectors whose
-                    # distinct knots come that close are outside the explored space (DESIGN section 5) and are retired
-                    ctx.count("slot_retired_knots_too_close")
-                    pool[s] = None
-                    continue
+                    # the library deliberately identifies knots closer than 1e-6 (knots, |) / 1e-9 (mult): under C03 (query
+                    # agreement) such vectors are outside the explored space and are retired.  Under C18 they stay: the
+                    # affine-image clauses are judged on the element list alone, which no tolerance touches
+                    if J03:
+                        ctx.count("slot_retired_knots_too_close")
+                        pool[s] = None
+                        continue
+                    ctx.probe("affine-map-on-nearly-coincident-knots")
                 L = self.check_vector(ctx, kv, J03, "after-" + kind)
                 if L is None:
                     ctx.count("slot_retired_illformed")
@@ -678,7 +686,7 @@ class KVEngine:
                 if any(isinstance(x, float) for x in list(kv)):
                     ks = M.kv_knots(L)
                     width = float(L[-1] - L[0])
-                    if min(float(b - a) for a, b in zip(ks, ks[1:])) < 1e-3 or not (2 ** -6 <= width <= 2 ** 10) \
+                    if (J03 and min(float(b - a) for a, b in zip(ks, ks[1:])) < 1e-3) or not (2 ** -20 <= width <= 2 ** 10) \
                             or max(abs(float(L[0])), abs(float(L[-1]))) > 2 ** 12:
                         ctx.count("slot_retired_float_discipline")
                         pool[s] = None
